@@ -89,7 +89,7 @@ def dump (s : St) (v : View) : String :=
   let uncles := blkIds.filterMap fun b => (v.m.uncles b).map fun _ => s!"{b}"
   let bepoch := blkIds.filterMap fun b => (v.r.blockEpoch b).map fun k => s!"{b}:{k}"
   let epoch := (blkIds ++ [ZERO_ID]).filterMap fun k => (v.r.epochExt k).map fun e => s!"{k}:{e.number}/{e.start}/{e.length}"
-  let epnum := (List.range (maxNum + 2)).filterMap fun n => (v.r.epochNum n).map fun k => s!"{n}:{k}"
+  let epnum := (List.range (maxNum + 2)).filterMap fun n => (v.m.epochNum n).map fun k => s!"{n}:{k}"
   let ext := blkIds.filterMap fun b => (v.r.ext b).map fun e =>
     let vs := match e.verified with | some true => "T" | some false => "F" | none => "N"
     let fs := if e.fees.isEmpty then "-" else ".".intercalate (e.fees.map toString)
